@@ -133,6 +133,15 @@ def inv02_def(stations, bases, vehicles):
 
 
 def ids_ok(sim):
+    return pred("ids", ids_ok_def, sim.vehicles, sim.stations, sim.bases, sim.requests)
+
+
+def ids_ok_def(vehicles, stations, bases, requests):
+    sim = NS_({"vehicles": vehicles, "stations": stations, "bases": bases, "requests": requests})
+    return _ids_ok(sim)
+
+
+def _ids_ok(sim):
     """map key = entity id, for the four entity maps (part of Inv08, kept revealed: it is what lets a point update
     keyed by `entity.id` be read as an update of the looked-up key)"""
     i = bound(StrT, "i_ids")
